@@ -6,7 +6,7 @@ from lib import gz, gtext, glist, gbool, gopt, gpair
 THEOREMS = ['C08_int_text_roundtrip', 'C08_int_out_lex', 'C08_bounded_native_exact',
             'C08_bounded_roundtrip', 'C08_integer_roundtrip', 'C08_integer_in_lex']
 
-THEOREMS_DT = ['C08_dt_offset_roundtrip', 'C08_dt_usec_six_digits', 'C08_dt_usec_exact', 'C08_dt_usec_digits', 'C08_dt_datetime_roundtrip', 'C08_dt_time_roundtrip', 'C08_dt_date_roundtrip', 'C08_dt_datetime_out_lex_partial', 'C08_dt_datetime_out_lex_refuted', 'C08_dt_datetime_out_lex_iff', 'C08_dt_time_out_lex', 'C08_dt_date_out_lex', 'C08_dt_datetime_in_lex', 'C08_dt_time_in_lex', 'C08_dt_date_in_lex', 'C08_dt_datetime_reader_shape', 'C08_dt_datetime_only_valueerror', 'C08_dt_datetime_crash_iff', 'C08_dt_datetime_no_trailing_junk', 'C08_dt_time_only_valueerror', 'C08_dt_time_crash_iff', 'C08_dt_date_only_valueerror', 'C08_dt_date_crash_iff']
+THEOREMS_DT = ['C08_dt_offset_roundtrip', 'C08_dt_usec_six_digits', 'C08_dt_usec_exact', 'C08_dt_usec_digits', 'C08_dt_datetime_roundtrip', 'C08_dt_time_roundtrip', 'C08_dt_date_roundtrip', 'C08_dt_datetime_out_lex_partial', 'C08_dt_datetime_out_lex_refuted', 'C08_dt_datetime_out_lex_iff', 'C08_dt_time_out_lex', 'C08_dt_date_out_lex', 'C08_dt_datetime_in_lex', 'C08_dt_time_in_lex', 'C08_dt_date_in_lex', 'C08_dt_datetime_reader_shape', 'C08_dt_datetime_never_crashes', 'C08_dt_datetime_vfault_iff', 'C08_dt_datetime_no_trailing_junk', 'C08_dt_time_never_crashes', 'C08_dt_time_vfault_iff', 'C08_dt_date_never_crashes', 'C08_dt_date_vfault_iff']
 THEOREMS_DUR = ['C08_duration_roundtrip', 'C08_duration_out_lex', 'C08_duration_out_lex_all', 'C08_duration_in_lex', 'C08_duration_range_abs', 'C08_duration_in_lex_strong', 'C08_duration_reader_total', 'C08_duration_out_of_range', 'C08_dur_no_trailing_junk', 'C08_dur_suffix_rejected', 'C08_boolean_roundtrip', 'C08_boolean_out_lex', 'C08_boolean_in_lex']
 THEOREMS_BIN = ['C08_base64_roundtrip', 'C08_hex_roundtrip', 'C08_base64_out_lex', 'C08_hex_out_lex', 'C08_base64_reader_total', 'C08_hex_reader_total', 'C08_hex_reader_bytes', 'C08_base64_reader_bytes', 'C08_base64_in_lex', 'C08_hex_in_lex']
 
